@@ -5,6 +5,7 @@
    total + delta = cl(inserted); the shipped flag (true) loses exactly the non-inserted pairs (x,x). *)
 From Coq Require Import List ZArith Bool Lia.
 From AV Require Import Byods.TrRelModel.
+From AV Require Byods.Closure.
 Import ListNotations.
 Open Scope Z_scope.
 
@@ -679,3 +680,18 @@ Lemma bmerge_total_eq b st st' : bmerge b st = Some st' -> b_total st' = b_total
 Proof.
   unfold bmerge. destruct (inner_loop _ _ _ _ _ _); [|discriminate]. intros H; inversion H; subst; cbn. split; reflexivity.
 Qed.
+
+(* ------------------------------------------------------------------ the shared specification (Byods/Closure.v, C10) *)
+
+(* the right-linear tc used here is the tc_rel of the shared closure file, hence its executable Closure.tc *)
+Lemma tc_iff_shared R x y : tc R x y <-> Closure.tc_rel R x y.
+Proof.
+  split.
+  - induction 1 as [x y H | x y z H IH Hyz]; [apply Closure.tc_base; exact H | eapply Closure.tc_trans; [exact IH | apply Closure.tc_base; exact Hyz]].
+  - induction 1 as [x y H | x y z _ IH1 _ IH2]; [apply tc_one; exact H | eapply tc_trans; eauto].
+Qed.
+
+Theorem trrel_closure_shared ops st ins :
+  brun shipped_arefl bempty [] ops = Some (st, ins) -> b_new st = [] ->
+  forall x y, In (x, y) (reads st) <-> In (x, y) (Closure.tc ins).
+Proof. intros H En x y. rewrite (trrel_closure ops st ins H En), Closure.tc_spec. apply tc_iff_shared. Qed.
